@@ -395,6 +395,58 @@ c16_corpus, _det = _corpus.mk_condition("c16_corpus", _corpus_check)
 DETAIL["c16_corpus"] = _det
 CONDITIONS.append({"fn": "c16_corpus", "quick": 90, "thorough": 200, "sel_only": True, "bounds": _corpus.BOUNDS})
 
+# ---- every registered filter with a missing variable as input or as an argument: a render that succeeds under a strict
+# type gives the default type's output (the solver selects filter and form; the body sweeps 5 input values) ----------------------
+FA_NAMES = sorted(ENVS["D"].filters)
+FA_FORMS = ["{{ v | %s: nosuch }}", "{{ v | %s: 'k', nosuch }}", "{{ v | %s: nosuch, 'k' }}", "{{ nosuch | %s }}", "{{ nosuch | %s: 'k' }}",
+            "{{ v | %s: a.nosuch }}", "{{ v | %s: 'k', a.nosuch.deeper }}", "{%% assign r = v | %s: 'k', nosuch %%}{{ r | size }}",
+            "{{ v | %s: nosuch | size }}"]
+FA_VALUES = [[{"k": True}, {"k": None}, {"k": False}, {"z": 1}, {"k": "s"}], "a,b", 3, [1, None, "x"], {"k": 1}]
+_FA_T = {}
+
+
+def fa_sweep(fi, form):
+    bad = []
+    src = FA_FORMS[form] % FA_NAMES[fi]
+    for vi in range(len(FA_VALUES)):
+        outs = {}
+        for kind in KINDS:
+            key = (kind, fi, form)
+            if key not in _FA_T:
+                try:
+                    _FA_T[key] = ENVS[kind].from_string(src)
+                except Exception:
+                    _FA_T[key] = None
+            t = _FA_T[key]
+            if t is None:
+                continue
+            try:
+                outs[kind] = ("ok", t.render(v=FA_VALUES[vi], a={}))
+            except Exception as e:
+                outs[kind] = ("err", type(e).__name__)
+        d = outs.get("D")
+        if d is None:
+            continue
+        for kind in ("S", "F", "SD"):
+            if kind in outs and outs[kind][0] == "ok" and outs[kind] != d:
+                bad.append({"source": src, "v": repr(FA_VALUES[vi]), "default": d, kind: outs[kind]})
+    return bad
+
+
+def c16_filter_args(fi: int, form: int) -> bool:
+    """
+    pre: 0 <= fi <= 79 and 0 <= form <= 8
+    post: _
+    """
+    if excluded("c16_filter_args", locals()):
+        return True
+    fi, form = cint(fi, 0, len(FA_NAMES) - 1), cint(form, 0, 8)
+    return finish(untraced(lambda: not fa_sweep(fi, form)))
+
+
+DETAIL["c16_filter_args"] = lambda fi, form: {"failing": fa_sweep(fi, form)[:3]}
+CONDITIONS.append({"fn": "c16_filter_args", "quick": 120, "thorough": 300, "sel_only": True})
+
 ASSUMPTIONS = [
     "templates are the concrete skeletons of harness/c16.py (FAMILIES); the four environments differ only in undefined=",
     "data = fixed nested structure minus the keys / sub-paths removed by the presence selectors; leaves: x in None|bool|int 0..9|str<=1, y/n ints 0..9, s str<=1 over {a}",
